@@ -5,11 +5,66 @@ LEVEL = "model_checking"
 OWNED = ("C13",)
 
 
+def _contract_probe(args):
+    """operator x state through every contraction algorithm: neither the operator nor the state handed in may change
+    (long-range operators whose bond dimension exceeds the default size of the variational initial guess)."""
+    from ..common import bootstrap, rng_for, reseed_global
+    bootstrap()
+    import json
+    import numpy as np
+    from renormalizer.model import Model, Op, basis as ba
+    from renormalizer.mps import Mps, Mpo
+    from renormalizer.utils import CompressConfig, CompressCriteria
+    from .. import states as st
+    seed, k = args
+    out = {"cases": [], "viol": []}
+    rng = rng_for(seed, "c13-contract", k)
+    n = 5 + k % 2
+    basis = [ba.BasisHalfSpin(i) for i in range(n)]
+    terms = []
+    for i in range(n):
+        terms.append(Op("sigma_z", i, float(rng.normal())))
+        for j in range(i + 1, n):
+            terms.append(Op("sigma_x sigma_x", [i, j], float(rng.normal())))
+            terms.append(Op("sigma_z sigma_z", [i, j], float(rng.normal())))
+    model = Model(basis, terms)
+    for algo in ("svd", "variational"):
+        for cplx in (False, True):
+            detail = {"probe": "Mpo.contract", "algo": algo, "nsites": n, "complex": cplx, "k": k}
+            out["cases"].append(json.dumps(detail))
+            try:
+                mpo = Mpo(model)
+                reseed_global(seed, "c13-contract-state", k, algo, cplx)
+                mps = Mps.random(model, 0, 4, 1.0)
+                if cplx:
+                    mps = st.complexify(mps, rng)
+                mps.compress_config = CompressConfig(CompressCriteria.fixed, max_bonddim=8)
+                o0, s0, bd0 = st.dense(mpo), st.dense(mps), list(mpo.bond_dims)
+                res = mpo.contract(mps, algo=algo)
+                if np.linalg.norm(st.dense(mpo) - o0) > 1e-12 * np.linalg.norm(o0) or list(mpo.bond_dims) != bd0:
+                    out["viol"].append((f"C13:contract-disturbs-operator:{algo}", f"Mpo.contract(algo={algo}) changed the operator it was called on: bond dims {bd0} -> {list(mpo.bond_dims)}, dense change {np.linalg.norm(st.dense(mpo) - o0) / np.linalg.norm(o0):.2e}", detail))
+                if np.linalg.norm(st.dense(mps) - s0) > 1e-12 * np.linalg.norm(s0):
+                    out["viol"].append((f"C13:contract-disturbs-state:{algo}", f"Mpo.contract(algo={algo}) changed the state handed in", detail))
+                if res is mps:
+                    out["viol"].append((f"C13:contract-returns-input:{algo}", "Mpo.contract returned its input", detail))
+            except Exception as e:
+                out["viol"].append((f"C13:contract-raises:{algo}:{type(e).__name__}", f"{type(e).__name__}: {e}", detail))
+    return out
+
+
 def run(ctx):
     c03.run(ctx, owned=OWNED, extra="c13")
     # tree states: the same frame comparison along TtnHeap histories (both mirrored universes)
     from . import c11
     c11.run(ctx, owned=OWNED)
+    from ..common import pmap, MachineryError
+    for st_, o in pmap(_contract_probe, [(ctx.seed, k) for k in range(4 if ctx.tier == "quick" else 16)]):
+        if st_ != "ok":
+            raise MachineryError("contract probe failed: " + o)
+        for c in o["cases"]:
+            ctx.case(fingerprint=c, nontrivial=True)
+        for key, what, detail in o["viol"]:
+            ctx.violation(key, what, detail)
     # tree time evolution: input compared before/after every TTNS.evolve call (4 schemes, real and imaginary time)
     from . import c12
     c12.run(ctx, owned="C13")
